@@ -181,7 +181,7 @@ func (x *c04) r7() {
 			stop := false
 			for _, f := range g.AllEdgeFacts() {
 				if f.Y == nil && f.Op == token.NEQ && f.X == ssa.Value(call) {
-					r := g.Reach([]int{g.Succ[f.Edge.From][f.Edge.K]}, nil, nil)
+					r := g.ReachAssuming(f.Edge, nil)
 					stop = !r[g.Idx[call]]
 				}
 			}
